@@ -228,11 +228,6 @@ theorem trinv_applyOp {k : K} (ht : TInv k) (h : TrInv k) (op : KOp) : TrInv (ap
         have h' : TrInv { k with latches := k.latches.set l (q, true) } := trinv_congr h rfl rfl
         exact trinv_rejectP h' q _ hq hlt
   | addReactions p cap f g => exact trinv_addReactions h p cap f g
-  | swap =>
-    simp only [applyOp, swap]
-    split
-    · exact trinv_congr h rfl rfl
-    · exact h
   | popJob =>
     simp only [applyOp, popJob]
     split
